@@ -84,8 +84,10 @@ def check(index, ctx):
                     continue
                 qp = qps[0]
                 P_or = qp["origins"].get("P", [])
-                mul = [e for e in ev if e["kind"] == "op" and e["op"] == "mul" and ((e.get("left_origin") == ["reg_eps"] and any(o.startswith("eye#") for o in e.get("right_origin", [])))
-                                                                                   or (e.get("right_origin") == ["reg_eps"] and any(o.startswith("eye#") for o in e.get("left_origin", []))))]
+                # (the identity itself, not a matrix computed from the Gramian — `eps * (I - G)` is another regulariser: P = (1 - eps)·G + eps·I)
+                pure_eye = lambda os_: any(o.startswith("eye#") for o in os_) and not any(not o.endswith("#meta") and (o == "matrix" or o.startswith(("svd_S#", "matmul#", "reduce#"))) for o in os_)
+                mul = [e for e in ev if e["kind"] == "op" and e["op"] == "mul" and ((e.get("left_origin") == ["reg_eps"] and pure_eye(e.get("right_origin", [])))
+                                                                                   or (e.get("right_origin") == ["reg_eps"] and pure_eye(e.get("left_origin", []))))]
                 add = [e for e in ev if e["kind"] == "op" and e["op"] == "add" and (("reg_eps" in e.get("left_origin", [])) != ("reg_eps" in e.get("right_origin", [])))
                        and any(o.startswith("svd_S#") for o in e.get("left_origin", []) + e.get("right_origin", []))]
                 # below the norm_eps threshold the normalised Gramian is the zero matrix (possibly returned early, without touching the decomposition)
@@ -100,8 +102,13 @@ def check(index, ctx):
                 if not okr:
                     whyr = (f"reg_eps is not the scalar of an identity added to the normalised Gramian handed to solve_qp as P (P derives from {P_or}; "
                             f"mul-by-identity sites: {[e['text'] for e in mul][:2]}, add sites: {[e['text'] for e in add][:2]})")
+                mixed = [e for e in ev if e["kind"] == "op" and e["op"] == "mul" and any(sd == ["reg_eps"] and any(o.startswith("eye#") for o in ot) and not pure_eye(ot)
+                                                                                          for sd, ot in ((e.get("left_origin"), e.get("right_origin", [])), (e.get("right_origin"), e.get("left_origin", []))))]
                 if okr:
                     ctx.ok("R1", pk + " reg_eps", "P = normalised Gramian + reg_eps·I", qp["loc"])
+                elif mixed and not mul:
+                    ctx.violated("R1", f"{name}: reg_eps regularises the Gramian of the QP", f"`{mixed[0]['text'][:80]}` multiplies reg_eps with a matrix made of the identity AND the Gramian (an interpolation "
+                                 "towards the identity): P = (1 - reg_eps)·G + reg_eps·I instead of G + reg_eps·I, which is another quadratic form and has another minimiser", mixed[0]["loc"])
                 elif "reg_eps" not in P_or or "norm_eps" in P_or:
                     ctx.violated("R1", f"{name}: reg_eps regularises the Gramian of the QP", whyr, qp["loc"])
                 else:
